@@ -47,21 +47,37 @@ def check_accumulator(out, facts):
         if len(alts) != 1:
             why.append('expected exactly one limit comparison')
         else:
-            done = False
-            for used in range(0, 4):
-                for lim in range(0, 4):
-                    leaf = lambda x: used if is_self_field(x, 'used_mem') else (lim if is_self_field(x, 'mem_limit') else None)
-                    c = eval_expr(alts[0][1][1], leaf)
-                    if c is None:
-                        why.append('limit condition is not a comparison of used_mem and mem_limit: ' + sym.vstr(alts[0][1][1]))
-                        done = True
-                        break
-                    body = [x for d, x in alts[0][2] if d == ('true' if c else 'false')]
-                    fails = bool(body) and any(e[0] == 'ERR' for e in events(body[0]))
-                    if fails != (used >= lim):
-                        why.append('with used_mem=%d, mem_limit=%d the hook %s (must fail iff used_mem >= mem_limit)' % (used, lim, 'fails' if fails else 'succeeds'))
-                if done:
-                    break
+            def table(interp):
+                bad = []
+                for old_ in range(0, 3):
+                    for size_ in range(0, 3):
+                        for lim in range(0, 5):
+                            new_ = old_ + size_
+
+                            def leaf(x):
+                                if is_self_field(x, 'mem_limit'):
+                                    return lim
+                                if is_self_field(x, 'used_mem'):
+                                    return new_ if interp == 'after' else old_
+                                if strip(x)[:2] == ('param', 'size'):
+                                    return size_ if interp == 'before' else None
+                                return None
+                            try:
+                                c = eval_expr(alts[0][1][1], leaf)
+                            except ArithPanic:
+                                c = None
+                            if c is None:
+                                return ['limit condition is not a comparison of the accumulated usage and mem_limit: ' + sym.vstr(alts[0][1][1])]
+                            body = [x for d, x in alts[0][2] if d == ('true' if c else 'false')]
+                            fails = bool(body) and any(e[0] == 'ERR' for e in events(body[0]))
+                            if fails != (new_ >= lim):
+                                bad.append('with used_mem=%d after adding %d and mem_limit=%d the hook %s (must fail iff used_mem >= mem_limit)' % (new_, size_, lim, 'fails' if fails else 'succeeds'))
+                return bad
+            # the symbolic evaluator does not version mutable fields: the condition may read the field after the update, or
+            # recompute the sum from the value before it; either reading must give the exact truth table
+            ta, tb = table('after'), table('before')
+            if ta and tb:
+                why.extend((ta if len(ta) <= len(tb) else tb)[:3])
     out.ob('R12.1', key, not why, '; '.join(sorted(set(why))[:3]), f['loc'], sample={'term': sym.tstr(t)})
     from .c19 import _writes_field
     writers = set()
